@@ -75,3 +75,12 @@ Definition height_bound (D : document) : nat :=
   (Datatypes.S (List.length (d_frags D))) * (Datatypes.S (doc_depth D)) + doc_depth D.
 
 Definition fuel_of (D : document) : nat := 3 + 6 * height_bound D.
+
+(* every field node of the document has pairwise distinct argument names (what
+   UniqueArgumentNames checks on fields); only then is sameArguments symmetric *)
+Fixpoint names_nodup (l : list name) : bool :=
+  match l with [] => true | x :: r => negb (nmem x r) && names_nodup r end.
+Definition node_args (s : selection) : list (name * value) :=
+  match s with SField _ _ _ args _ _ => args | _ => [] end.
+Definition args_ok (D : document) : bool :=
+  forallb (fun x => names_nodup (map fst (node_args x))) (List.concat (doc_lists D)).
